@@ -352,7 +352,12 @@ def c01(run, ck):
     out = os.path.join(run.work, "ladder.ndjson")
     run.drive("ladder", 1, out)
     verdicts, recs = run.validate(out, "Trace_Total", cfg="Trace_Total.cfg", parts=1, label="ladder")
-    simple_violations(run, ck, verdicts, recs, "ladder", describe=lambda rec, v: "%s|depth=%s|thread=%s" % (rec.get("shape"), rec.get("depth"), rec.get("thread")))
+    # the recorded finding is stack exhaustion of the recursive-descent compiler on deep nesting (from about a hundred levels,
+    # depending on shape, build profile and stack size): one key per shape for that; a crash at a shallower depth keeps its depth
+    def ladder_key(rec, v):
+        d = rec.get("depth") or 0
+        return "%s|%s" % (rec.get("shape"), "deep" if d >= 100 else "depth=%s|thread=%s" % (d, rec.get("thread")))
+    simple_violations(run, ck, verdicts, recs, "ladder", describe=ladder_key)
     return dict(rule="every built-in function, macro and type constructor x argument tuples from the boundary pool (arity <= 1 exhaustive with and without receiver, arity 2 exhaustive in the thorough tier, 3-4 sampled), "
                      "every operator x pool^2, each as bound values and as literals (compile-time evaluation); grammar-derived, token-mutated, token-soup and random UTF-8 sources; nesting ladders of 17 shapes in child processes on an 8 MB and a 2 MB stack",
                 assumptions=["stack exhaustion is observed per build profile and stack size of this machine", "the harness is built with opt-level 1"])
